@@ -6,8 +6,9 @@
 
    Types are tags of a finite poset given by a decidable STRICT order [sub]
    (a Section variable: the theorems need nothing but its partial-order laws;
-   [sub6] below is the concrete 7-tag instance - python `object` plus a 6-class
-   lattice with a diamond - used by the correspondence).
+   [sub6] below is the concrete instance used by the correspondence - python `object`, a 6-class
+   lattice with a diamond, and two more classes G(A), H(G,B) that make "specialization of a mapping"
+   non-transitive).
 
    [choose_overload] is the REPAIRED, order-free selection (what runner.py does
    after the `fix:` commit for F3); [choose_historic] is the single-pass selection
@@ -42,6 +43,7 @@ Inductive kind :=
 | KLambda                            (* yaqltypes.Lambda(): lazy, accepts anything *)
 | KExpr                              (* yaqltypes.YaqlExpression(): lazy, accepts expressions only *)
 | KTyped (t : tag) (nullable : bool)  (* PythonType(class t, nullable) *)
+| KAnyOf (ts : list tag) (nullable : bool)  (* yaqltypes.AnyOf(classes..., nullable): related to no type *)
 | KConstant (nullable : bool)        (* yaqltypes.Constant(nullable): accepts constant expressions only *)
 | KMapRule.                          (* yaqltypes.MappingRule(): lazy, accepts `a => b` expressions only *)
 Inductive star := SNone | SArgs | SKwargs.   (* dictionary key: the name / '*' / '**' *)
@@ -190,6 +192,12 @@ Definition check (k : kind) (a : arg) : bool :=
       | ANoValue => check_val t n VMarker
       | AExpr _ _ | AMapC _ _ | AMapE _ _ _ => true      (* checked after evaluation *)
       end
+  | KAnyOf ts n =>
+      match a with
+      | AConst v | ARaw v => match v with VNull => n | _ => existsb (isinst v) ts end
+      | ANoValue => existsb (isinst VMarker) ts
+      | AExpr _ _ | AMapC _ _ | AMapE _ _ _ => negb (match ts with [] => true | _ => false end)
+      end
   | KConstant n => match a with AConst _ => true | ARaw VNull => n | _ => false end
   | KMapRule => match a with AMapC _ _ | AMapE _ _ _ => true | _ => false end
   end.
@@ -200,7 +208,7 @@ Definition convert (k : kind) (a : arg) : bval :=
   | KHidden h => BHid h
   | KLambda => match a with ARaw VNull => BVal VNull | _ => BCallable a end
   | KExpr => BExprObj a
-  | KTyped _ _ =>
+  | KTyped _ _ | KAnyOf _ _ =>
       match a with
       | AConst v | ARaw v => BVal v
       | ANoValue => BVal VMarker
@@ -669,13 +677,14 @@ Definition resolve_spec (layers : list (list fdef)) (args : list arg) (pykw : kw
 End Sub.
 
 (* ---- the concrete lattice used by the correspondence ------------------------ *)
-(* 0 object; 1 X; 2 A(X); 3 B(X); 4 D(A,B); 5 E(D); 6 F *)
+(* 0 object; 1 X; 2 A(X); 3 B(X); 4 D(A,B); 5 E(D); 6 F; 7 G(A); 8 H(G,B) *)
 Definition sub6 (a b : tag) : bool :=
   match a, b with
   | 0, _ => false
-  | S _, 0 => Nat.leb a 6
-  | 2, 1 | 3, 1 | 4, 1 | 5, 1 => true
+  | S _, 0 => Nat.leb a 8
+  | 2, 1 | 3, 1 | 4, 1 | 5, 1 | 7, 1 | 8, 1 => true
   | 4, 2 | 4, 3 | 5, 2 | 5, 3 | 5, 4 => true
+  | 7, 2 | 8, 7 | 8, 2 | 8, 3 => true
   | _, _ => false
   end.
 
